@@ -812,6 +812,90 @@ def gen_history(rng, curve=None):
     return None
 
 
+# =============================================================================================================
+# sessions with several fit results alive at once: every EARLIER result is looked at again after the later fits
+# =============================================================================================================
+def gen_multi(rng):
+    """2-3 fits whose parameters carry the same names (same model, other data), sometimes a different model in between"""
+    for _ in range(100):
+        r = rng.random()
+        if r < 0.55:
+            first = gen_poly_case(rng)
+            if isinstance(first["xrange"], str) or not well_posed_poly(first):
+                continue
+
+            def another():
+                for _ in range(200):
+                    c = gen_poly_case(rng)
+                    if c["model"] == first["model"] and c["deg"] == first["deg"] and not isinstance(c["xrange"], str) \
+                            and well_posed_poly(c):
+                        return c
+                return None
+        else:
+            first = gen_curve_case(rng)
+
+            def another():
+                return gen_curve_case(rng, model=first["model"], yscale=first.get("yscale"))
+        fits = [first]
+        for _ in range(rng.randrange(1, 3)):
+            c = another()
+            if c is None:
+                break
+            fits.append(c)
+        if len(fits) < 2:
+            continue
+        if rng.random() < 0.3:
+            other = gen_curve_case(rng) if first["kind"] == "poly" else gen_poly_case(rng)
+            if other["kind"] == "curve" or (not isinstance(other["xrange"], str) and well_posed_poly(other)):
+                fits.insert(rng.randrange(1, len(fits) + 1), other)
+        return {"kind": "multi", "fits": fits}
+    return None
+
+
+def multi_in_domain(case):
+    return len(case["fits"]) >= 1 and all(
+        in_domain(c) and (c["kind"] != "poly" or well_posed_poly(c)) for c in case["fits"])
+
+
+def run_multi(case):
+    """perform all the fits, keep every result, THEN observe each result in full; returns [(fit case, obs)]"""
+    import numpy as np
+    runs = [(c, run_case(c)) for c in case["fits"]]
+    for c, obs in runs:
+        if obs.get("_res") is not None:
+            with warnings.catch_warnings():
+                warnings.simplefilter("ignore")
+                with np.errstate(all="ignore"):
+                    obs["result"] = observe(obs["_res"], c)
+    return runs
+
+
+def shrink_multi(case, fails):
+    best = dict(case)
+
+    def attempt(c):
+        nonlocal best
+        try:
+            if multi_in_domain(c) and fails(c):
+                best = c
+                return True
+        except Exception:  # noqa
+            pass
+        return False
+    changed = True
+    while changed and len(best["fits"]) > 1:
+        changed = False
+        for i in range(len(best["fits"])):
+            if attempt(dict(best, fits=best["fits"][:i] + best["fits"][i + 1:])):
+                changed = True
+                break
+    for i in range(len(best["fits"])):
+        small = shrink_case(best["fits"][i], lambda c, i=i: multi_in_domain(dict(best, fits=best["fits"][:i] + [c] + best["fits"][i + 1:]))
+                            and fails(dict(best, fits=best["fits"][:i] + [c] + best["fits"][i + 1:])))
+        attempt(dict(best, fits=best["fits"][:i] + [small] + best["fits"][i + 1:]))
+    return best
+
+
 def shrink_history(case, fails):
     """fewer steps, one request, fewer points"""
     best = dict(case)
@@ -881,6 +965,50 @@ def observe_params(params, pcorr):
     }
 
 
+REEVAL_EDITS = ("monte-carlo", "recalculate", "mc-settings", "override-value", "override-error")
+
+
+def reevaluate(res, case, ev):
+    q = _q()
+    f = res.fit_function
+    edits, vals, errs = [], [], []
+    for i, x in enumerate(ev):
+        first = f(x)
+        how = REEVAL_EDITS[(i + int(case.get("reeval_shift", 0))) % len(REEVAL_EDITS)]
+        if how == "monte-carlo":
+            first.error_method = q.ErrorMethod.MONTE_CARLO
+            _ = first.value, first.error
+        elif how == "recalculate":
+            _ = first.value
+            first.recalculate()
+        elif how == "mc-settings":
+            first.error_method = q.ErrorMethod.MONTE_CARLO
+            first.mc.sample_size = 500
+            first.mc.use_mode_with_confidence(0.5)
+            _ = first.value
+        elif how == "override-value":
+            first.value = float(first.value) * 2 + 1
+        else:
+            first.error = float(first.error) * 3 + 1
+        second = f(x)
+        edits.append(how)
+        vals.append(float(second.value))
+        errs.append(float(second.error))
+    out = {"again_edit": edits, "again": vals, "again_band": errs}
+    if case.get("plot"):
+        import qexpy.plotting as qplt
+        import matplotlib.pyplot as pyplot
+        ends = [float(min(case["xs"])), float(max(case["xs"]))]
+        out["plot_first"] = [float(f(x).value) for x in ends]
+        fig = qplt.plot(res)
+        fig.show()
+        pyplot.close("all")
+        out["plot_eval"] = ends
+        out["plot_again"] = [float(f(x).value) for x in ends]
+        out["plot_again_band"] = [float(f(x).error) for x in ends]
+    return out
+
+
 def observe(res, case):
     """everything C07 talks about, read through the public API (plus the stored correlation matrix).
     The parameter-level observations come first; if evaluating the fitted function raises, that is recorded
@@ -910,6 +1038,11 @@ def observe(res, case):
             "residuals": [float(r.value) for r in res.residuals],
             "chi2": float(res.chi_squared), "ndof": int(res.ndof),
         })
+        # evaluate again at the same points after the value returned the first time was used / modified by its owner
+        # (switched to Monte Carlo and read, recalculated, Monte Carlo settings changed, value overridden), and after the
+        # result was drawn: what fit_function returns must still be the model at the returned parameters
+        again = reevaluate(res, case, ev)
+        out.update(again)
     except Exception as e:  # noqa
         out["eval_exn"] = "{}: {}".format(type(e).__name__, str(e)[:120])
     return out
@@ -981,8 +1114,12 @@ def coq_res_case(case, obs):
     fm = {"linear": "(FRat MLin)", "quadratic": "(FRat MQuad)", "polynomial": "(FRat MPoly)",
           "userquad": "(FRat MUserQuad)"}.get(m, "FTable")
     table = coq_list(["({}, {})".format(qlit(x), qlit(v)) for x, v in zip(case["xs"], r["table"])])
-    ev = coq_list(["({}, ({}, {}, {}))".format(qlit(x), qlit(a), qlit(b), qlit(c))
-                   for x, a, b, c in zip(r["eval"], r["scalar"], r["list"], r["array"])])
+    rows = list(zip(r["eval"], r["scalar"], r["list"], r["array"]))
+    # second evaluations (after the first returned value was modified / the result was drawn) must give the model value again
+    # (the first evaluation stands in the scalar column: the repeated one must be the very same number)
+    rows += [(x, a0, a, a) for x, a0, a in zip(r["eval"], r["scalar"], r.get("again", []))]
+    rows += [(x, a0, a, a) for x, a0, a in zip(r.get("plot_eval", []), r.get("plot_first", []), r.get("plot_again", []))]
+    ev = coq_list(["({}, ({}, {}, {}))".format(qlit(x), qlit(a), qlit(b), qlit(c)) for x, a, b, c in rows])
     return "(Build_res_case {} {} {} {} {} {} {} {} {} {} {} {} {} {})".format(
         fm, qlist(raw["popt"]), qmat(raw["pcov"]), coq_dpts(case), table, ev, qlist(r["residuals"]), qlit(r["chi2"]),
         zlit(r["ndof"]), qlist(obs["errs"]), qmat(r["pcorr"]), qmat(r["getcorr"]), qmat(r["getcov"]), qmat(r["printed"]))
